@@ -6,7 +6,7 @@ from harness import pitkit
 
 INVS = ['TypeOK', 'NoResidue', 'RightOutcome']
 PROPS = ['OnceOnly', 'NoUnvalidatedData', 'BufferedValidated', 'BufferedIsDelivered', 'AllAndOnlyMatching', 'JunkInert']
-WITNESSES = ['W_DataAtDeadline', 'W_TimeoutWhileValidating', 'W_TwoSatisfied', 'W_NackOne', 'W_VFail', 'W_LateAwaitData', 'W_RaceData']
+WITNESSES = ['W_NackAtDeadline', 'W_NackFireBoth', 'W_DataAtDeadline', 'W_TimeoutWhileValidating', 'W_TwoSatisfied', 'W_NackOne', 'W_VFail', 'W_LateAwaitData', 'W_RaceData']
 
 JUNK_BASIC = ['6400', '0500', '0600', 'ff', '0a0102', '640350017f', '060107']
 
@@ -63,7 +63,7 @@ def stage_a(ctx, configs, witnesses_front='v2'):
                           {'trace': r.errtrace})
         for a, (d, t) in r.coverage.items():
             cov_total[a] = cov_total.get(a, 0) + t
-    for a in ('Express', 'RecvDataX', 'ValFinish', 'Fire', 'Tick', 'Cancel', 'Shutdown', 'RecvNackX', 'RecvJunk'):
+    for a in ('Express', 'RecvDataX', 'ValFinish', 'Fire', 'Tick', 'Cancel', 'Shutdown', 'RecvNackX', 'RecvNackFire', 'RecvJunk'):
         if cov_total.get(a, 0) == 0:
             raise tlc.MachineryError('vacuous: NdnPit action %s never taken in stage A' % a)
     ctx.extra.setdefault('action_coverage', {}).update(cov_total)
@@ -104,6 +104,8 @@ def events_of_path(path, vmap=None):
             evs.append({'a': act, 'to': a[0]})
         elif act == 'Cancel':
             evs.append({'a': act, 'e': a[0]})
+        elif act == 'RecvNackFire':
+            evs.append({'a': act, 't': a[0], 'r': a[1], 'env': a[2]})
         elif act in ('RecvNack', 'RecvNackX'):
             evs.append({'a': 'RecvNack', 't': a[0], 'r': a[1], 'env': a[2], 'x': sorted(a[3]) if len(a) > 3 else []})
         elif act == 'RecvJunk':
@@ -133,7 +135,7 @@ def record(front, schedule):
 
 def nontrivial_key(evs):
     acts = [e['a'] for e in evs]
-    interesting = sum(1 for a in acts if a in ('Fire', 'Cancel', 'Shutdown', 'RecvNack', 'ValFinish', 'RecvJunk', 'Await'))
+    interesting = sum(1 for a in acts if a in ('Fire', 'Cancel', 'Shutdown', 'RecvNack', 'RecvNackFire', 'ValFinish', 'RecvJunk', 'Await'))
     nexp = acts.count('Express')
     if nexp >= 1 and interesting >= 1 and len(acts) >= 3:
         return json.dumps([[e['a']] + [e.get(k) for k in ('t', 'd', 'e', 'v', 'r', 'env')] for e in evs], sort_keys=True)
@@ -304,6 +306,14 @@ def random_schedule(rng, front, n_events, weights=None, junk=None, verdicts=None
                 else:
                     t = {'name': pick_name(rng), 'cbp': False, 'dig': 0, 'life': 1}
                 x = [rng.choice(unfinished) + 1] if unfinished and rng.random() < race_p else []
+                if due and not x and rng.random() < 0.6:
+                    # the Nack and the due lifetime timers are served in one loop iteration (Nack first); it then names an
+                    # Interest that is due more often than not
+                    dues = [en['t'] for en in entries if en['dl'] == now]
+                    if dues and rng.random() < 0.7:
+                        t = rng.choice(dues)
+                    emit({'a': 'RecvNackFire', 't': t, 'r': rng.randint(1, 5), 'env': rng.choice(['lp', 'lph', 'lpo'])})
+                    continue
                 emit({'a': a, 't': t, 'r': rng.randint(1, 5), 'env': rng.choice(['lp', 'lph', 'lpo']), 'x': x})
             elif a == 'RecvJunk':
                 hx = (junk(rng) if junk else rng.choice(JUNK_BASIC))
